@@ -13,7 +13,7 @@ from .common import Inconclusive, Violation
 BACKENDS = ['t', 'mp', 'dill_mp', 'multiprocessing', 'concurrent_mp']
 
 
-def pool_task(x, delays=(), fails=None, log=None):
+def pool_task(x, delays=(), fails=None, log=None, salt=0):
     """x is ('v', i). Sleeps delays[i] ms (later tasks may finish first), appends start/end markers, may raise."""
     i = x[1]
     if log:
@@ -29,7 +29,7 @@ def pool_task(x, delays=(), fails=None, log=None):
         fd = os.open(log, os.O_WRONLY | os.O_APPEND | os.O_CREAT)
         os.write(fd, f'end {i}\n'.encode())
         os.close(fd)
-    return ('r', i)
+    return ('r', i, salt)
 
 
 class _Alarm:
@@ -58,7 +58,8 @@ def run_pool_case(case):
     stop = case.get('stop')
     tmp = tempfile.mkdtemp(prefix='verif_pool_')
     log = os.path.join(tmp, 'markers.log')
-    fn = functools.partial(pool_task, delays=delays, fails=fails, log=log if case.get('markers') else None)
+    salt = case.get('salt', 0)
+    fn = functools.partial(pool_task, delays=delays, fails=fails, log=log if case.get('markers') else None, salt=salt)
     out = {'delivered': [], 'exc': None, 'len': None, 'closed': False}
     try:
         with _Alarm(90):
@@ -130,7 +131,7 @@ def expected_pool(case):
                     None if catch is True else catch):
                 continue
             return out, i, e
-        v = ('r', i)
+        v = ('r', i, case.get('salt', 0))
         out.append((f'k{i:02d}', v) if case.get('with_key') else v)
     return out, None, None
 
@@ -178,7 +179,7 @@ def st_pool_case(draw, profile, backends=BACKENDS):
     w = draw(st.integers(1, 3))
     b = draw(st.integers(w, 4))
     n = draw(st.sampled_from([0, 1, 5, 12]))
-    case = {'backend': be, 'api': api, 'n': n, 'workers': w, 'buffer': b,
+    case = {'backend': be, 'api': api, 'n': n, 'workers': w, 'buffer': b, 'salt': draw(st.integers(0, 10 ** 6)),
             'delays': draw(st.lists(st.sampled_from([0, 0, 1, 2, 4, 8]), min_size=n, max_size=n))}
     if api in ('pm', 'pf') and draw(st.booleans()):
         if api == 'pf':
